@@ -427,3 +427,116 @@ func runSetSlot(rc *RuleCtx) {
 		}
 	}
 }
+
+func init() {
+	register(&Rule{
+		Name:     "BARESPAN",
+		Doc:      "a function of thrift/generic that gives a child slot a BARE node (a Node literal with the pointer set and length 0: NotScanParentNode does not keep the parent's bytes because its children carry them) re-assigns the slot's Node under a test that the scan produced no children (`len(v.Next) == 0`): an EMPTY container has no child to carry its header / STOP byte, and Marshal writes `raw()` — nothing — for a node without children",
+		Configs:  "NP",
+		Floor:    map[string]int{"N": 1, "P": 1},
+		Controls: 1,
+		Run:      runBareSpan,
+	})
+}
+
+func runBareSpan(rc *RuleCtx) {
+	for _, fn := range rc.W.Funcs {
+		if fn.Blocks == nil || pkgRel(fn) != "thrift/generic" {
+			continue
+		}
+		// bare literals: a local Node alloc whose field l is stored the constant 0 and whose field v is stored a non-constant
+		bare := map[*ssa.Alloc]bool{}
+		hasV := map[*ssa.Alloc]bool{}
+		for _, b := range fn.Blocks {
+			for _, ins := range b.Instrs {
+				st, ok := ins.(*ssa.Store)
+				if !ok {
+					continue
+				}
+				fa, ok := st.Addr.(*ssa.FieldAddr)
+				if !ok {
+					continue
+				}
+				al, ok := fa.X.(*ssa.Alloc)
+				if !ok || typeShort(derefType(al.Type())) != "thrift/generic.Node" {
+					continue
+				}
+				_, n, _ := fieldNameOf(fa)
+				if n == "l" {
+					if k, isC := constInt(st.Val); isC && k == 0 {
+						bare[al] = true
+					}
+				}
+				if n == "v" {
+					if _, isC := st.Val.(*ssa.Const); !isC {
+						hasV[al] = true
+					}
+				}
+			}
+		}
+		for _, b := range fn.Blocks {
+			for _, ins := range b.Instrs {
+				st, ok := ins.(*ssa.Store)
+				if !ok {
+					continue
+				}
+				fa, ok := st.Addr.(*ssa.FieldAddr)
+				if !ok {
+					continue
+				}
+				if owner, n, ok := fieldNameOf(fa); !ok || n != "Node" || typeShort(owner) != "thrift/generic.PathNode" {
+					continue
+				}
+				ld, ok := st.Val.(*ssa.UnOp)
+				if !ok {
+					continue
+				}
+				al, ok := ld.X.(*ssa.Alloc)
+				if !ok || !bare[al] || !hasV[al] {
+					continue
+				}
+				slot := fa.X
+				rc.Examined++
+				good := false
+				for _, ob := range fn.Blocks {
+					for _, oi := range ob.Instrs {
+						os, ok := oi.(*ssa.Store)
+						if !ok || os == st {
+							continue
+						}
+						ofa, ok := os.Addr.(*ssa.FieldAddr)
+						if !ok || ofa.X != slot {
+							continue
+						}
+						if _, n, ok := fieldNameOf(ofa); !ok || n != "Node" {
+							continue
+						}
+						for _, cd := range controllingIfs(ob) {
+							k, _ := condKey(cd.cond)
+							bo, ok := k.(*ssa.BinOp)
+							if !ok {
+								continue
+							}
+							for _, side := range []ssa.Value{bo.X, bo.Y} {
+								if c, ok := side.(*ssa.Call); ok {
+									if bi, ok := c.Call.Value.(*ssa.Builtin); ok && bi.Name() == "len" && len(c.Call.Args) == 1 {
+										if l2, ok := c.Call.Args[0].(*ssa.UnOp); ok {
+											if nfa, ok := l2.X.(*ssa.FieldAddr); ok && nfa.X == slot {
+												if _, n, ok := fieldNameOf(nfa); ok && n == "Next" {
+													good = true
+												}
+											}
+										}
+									}
+								}
+							}
+						}
+					}
+				}
+				rc.verdict(good, fn, "bare parent node", st.Pos(), map[bool]string{
+					true:  "a bare parent that turns out to have no children gets its own span back",
+					false: "the slot is given a bare node (pointer, length 0) and nothing re-assigns it when the scan finds no children: an empty list / map / struct is marshalled as zero bytes (its header or STOP byte is lost)"}[good], true)
+			}
+		}
+	}
+}
